@@ -713,6 +713,7 @@ pub fn worker_main(scn: &Value, report: &Value, shared_path: Option<String>, out
                 let start = step.get("start").or_else(|| faults.get("start")).and_then(|v| v.as_u64()).unwrap_or(0);
                 let pre_len = step.get("pre_len").or_else(|| faults.get("pre_len")).and_then(|v| v.as_u64()).unwrap_or(0) as usize;
                 let shared = std::rc::Rc::new(std::cell::RefCell::new(RecDest::new(start, pre_len)));
+                shared.borrow_mut().panic_at = step.get("dest_panic_at").or_else(|| faults.get("dest_panic_at")).and_then(|v| v.as_u64()).map(|k| k as usize);
                 shared.borrow_mut().fail_at = step.get("dest_fail_at").or_else(|| faults.get("dest_fail_at")).and_then(|v| v.as_u64()).map(|k| k as usize);
                 // {"dest_short_at": [call index, bytes accepted, disk full afterwards]}
                 shared.borrow_mut().short_at = step.get("dest_short_at").or_else(|| faults.get("dest_short_at")).and_then(|v| v.as_array())
